@@ -341,6 +341,12 @@ def highlevel_display(ctx, model, cov):
         c0, r0 = rng.choice([0, 0, 3]), rng.choice([0, 1])
         cases.append({"id": rng.choice([7, 0x1234, 0x01000000, 0xFE00AB01]), "pid": 0, "c0": c0, "c1": c0 + w, "r0": r0, "r1": r0 + hh, "style": "sr",
                       "fewer": rng.random() < 0.3, "arg": "int", "layers": k % 3, "margin": {"x0": rng.choice([0, 1, 12]), "y0": rng.choice([0, 3, 30])}})
+    # the same image displayed twice side by side on the same rows (horizontal tiling) through the high-level call, with and
+    # without fewer_diacritics: the mode is the library's choice here, so both copies must decode
+    for k in range(ctx.pick(40, 300)):
+        w, hh = rng.choice([1, 2, 3, 6]), rng.choice([1, 2, 3])
+        cases.append({"id": rng.choice([7, 0x1234, 0xABCDEF, 0x01000000, 0xFE00AB01]), "pid": 0, "c0": 0, "c1": w, "r0": 0, "r1": hh, "style": "sr",
+                      "fewer": k % 2 == 0, "arg": "int", "layers": 0, "twice": {"x0": rng.choice([0, 2, 10]), "y0": rng.choice([0, 1, 20])}})
     work = ctx.work
 
     def child():
@@ -370,7 +376,11 @@ def highlevel_display(ctx, model, cov):
             disp.writes.clear()
             t = terms[c.get("layers", 0)]
             try:
-                if c["arg"] == "int":
+                if c.get("twice"):
+                    tw = c["twice"]
+                    for dx in (0, c["c1"] - c["c0"]):
+                        t.display_only(c["id"], start_col=c["c0"], start_row=c["r0"], end_col=c["c1"], end_row=c["r1"], fewer_diacritics=c["fewer"], abs_pos=(tw["x0"] + dx, tw["y0"]))
+                elif c["arg"] == "int":
                     t.display_only(c["id"], start_col=c["c0"], start_row=c["r0"], end_col=c["c1"], end_row=c["r1"], fewer_diacritics=c["fewer"])
                 else:
                     g = c["given"]
@@ -400,6 +410,19 @@ def highlevel_display(ctx, model, cov):
         return {"W": m["x0"] + (c["c1"] - c["c0"]), "H": 40, "x0": m["x0"], "y0": m["y0"], "cur": [m["x0"], m["y0"]]}
     reps = model.batch([pc.render_request(screen_of(c)["W"], screen_of(c)["H"], screen_of(c)["x0"], screen_of(c)["y0"], False, data) for c, data in ok]) if ok else []
     for (c, data), rep in zip(ok, reps):
+        if c.get("twice"):
+            tw = c["twice"]
+            w_ = c["c1"] - c["c0"]
+            cov.bump("highlevel/twice-side-by-side/" + ("fewer" if c["fewer"] else "default"))
+            exp = pc.expected_cells(c, 340, 40, tw["x0"], tw["y0"], scrolls=False)
+            exp.update(pc.expected_cells(c, 340, 40, tw["x0"] + w_, tw["y0"], scrolls=False))
+            d = pc.first_diff(exp, pc.parse_render(rep)["cells"])
+            if d is not None:
+                ctx.violations.append({"signature": {"class": "decode-mismatch", "style": "display_only", "scenario": "same image twice side by side"},
+                                       "what": f"TupimageTerminal.display_only(fewer_diacritics={c['fewer']}) of the same {w_}x{c['r1'] - c['r0']} image twice side by side (abs_pos {tw['x0']},{tw['y0']} and "
+                                               f"{tw['x0'] + w_},{tw['y0']}): cell (y,x)={d['cell_yx']} decodes to {d['decoded']}, the statement requires {d['expected']}",
+                                       "case": {"kind": "highlevel", "case": c}, "observed": d})
+            continue
         if "margin" in c:
             sc_ = screen_of(c)
             h_ = c["r1"] - c["r0"]
@@ -426,6 +449,13 @@ def highlevel_display(ctx, model, cov):
 def replay(ctx, model, rec):
     case = rec["case"]
     tup = common.import_impl()
+    if case.get("kind") == "highlevel":
+        import c07 as _c07
+        n0 = len(ctx.violations)
+        _c07.highlevel_display(ctx, model, common.Coverage("replay"))
+        mine = ctx.violations[n0:]
+        del ctx.violations[n0:]
+        return {"violates": bool(mine), "violations": [v["what"] for v in mine][:3], "note": "the high-level display cases of this seed are re-run"}
     if case.get("kind") == "render":
         c, scr = case["case"], case["screen"]
         st, writes = pc.run_impl(tup, c)
